@@ -1329,6 +1329,17 @@ class Engine(object):
         if self._schema_updated:
           self.assert_schema_consistent()
 
+      # If needed, rebuild dependencies for trigger formulas.
+      self._maybe_update_trigger_dependencies()
+
+      # Note that recalculations and auto-removals get included after processing all useractions.
+      # They are part of what gets reverted on failure: they may produce doc actions too.
+      self._bring_all_up_to_date()
+
+      # Apply any triggered record removals. If anything does get removed, recalculate what's needed.
+      while self.docmodel.apply_auto_removes():
+        self._bring_all_up_to_date()
+
     except Exception as e:
       # Save full exception info, so that we can rethrow accurately even if undo also fails.
       exc_info = sys.exc_info()
@@ -1336,6 +1347,8 @@ class Engine(object):
       # consistent internally as well as with the clients and database outside of the sandbox
       # (which won't see any changes in case of an error).
       log.info("Failed to apply useractions; reverting: %r", e)
+      # The failure may have interrupted a recalculation.
+      self._in_update_loop = False
       self._undo_to_checkpoint(checkpoint)
 
       # Check schema consistency again. If this fails, something is really wrong (we tried to go
@@ -1346,16 +1359,6 @@ class Engine(object):
       except Exception:
         log.error("Inconsistent schema after revert on failure: %s", traceback.format_exc())
       raise
-
-    # If needed, rebuild dependencies for trigger formulas.
-    self._maybe_update_trigger_dependencies()
-
-    # Note that recalculations and auto-removals get included after processing all useractions.
-    self._bring_all_up_to_date()
-
-    # Apply any triggered record removals. If anything does get removed, recalculate what's needed.
-    while self.docmodel.apply_auto_removes():
-      self._bring_all_up_to_date()
 
     self.out_actions.flush_calc_changes()
     self.out_actions.check_sanity()
